@@ -102,7 +102,10 @@ pub fn install_panic_hook() {
     panic::set_hook(Box::new(|info| {
         let loc = info
             .location()
-            .map(|l| format!("{}:{}", l.file().trim_start_matches("/repo/"), l.line()))
+            .map(|l| {
+                let root = format!("{}/", repo_root().display());
+                format!("{}:{}", l.file().trim_start_matches(root.as_str()).trim_start_matches("/repo/"), l.line())
+            })
             .unwrap_or_else(|| "?".into());
         let msg = if let Some(s) = info.payload().downcast_ref::<&str>() {
             s.to_string()
